@@ -133,6 +133,8 @@ func (Precompile).WithdrawDelegatorRewards
     // FINDING F5: the code mirrors 'caller == delegator' instead of the credited account
     ensures c02_mirrored: result.1 == nil ==> sdb_delta == ite(withdraw_to(old(cstate), ctx_wrap(ctx), bech_of(del)) == caller || withdraw_to(old(cstate), ctx_wrap(ctx), bech_of(del)) == origin,
             upd(old(sdb_delta), withdraw_to(old(cstate), ctx_wrap(ctx), bech_of(del)), old(sdb_delta)[withdraw_to(old(cstate), ctx_wrap(ctx), bech_of(del))] + paid[bond_denom(oldheap(*p.stakingKeeper.Keeper), ctx)]), old(sdb_delta))
+    // ---- C05: as for staking.Delegate (FINDING F6)
+    ensures c05_undoable: result.1 == nil ==> cstate == old(cstate)
 
 // C04: commission is paid out only on the validator's own call (signer or calling contract is the validator's account).
 // C16: the call is the native MsgWithdrawValidatorCommission.
